@@ -45,6 +45,10 @@ func (e seqEnv) rpc() *Rpc {
 		case 3:
 			// the same under a key that is not all lower-case (a foreign peer may send any case)
 			r.Header.Headers = []*goatorepo.KeyValue{{Key: "K-Bin", Value: "!!"}}
+		case 4:
+			// a timeout header with a unit that does not exist (any byte may follow the digits): ignored,
+			// the request is served
+			r.Header.Headers = []*goatorepo.KeyValue{{Key: "grpc-timeout", Value: c12BadUnit()}}
 		}
 	}
 	if e.Body {
@@ -62,8 +66,16 @@ func (e seqEnv) rpc() *Rpc {
 	return r
 }
 
+// c12BadUnit rotates through timeout values whose unit byte is none of H M S m u n, up to 0xff.
+var c12BadUnitN atomic.Uint64
+
+func c12BadUnit() string {
+	vals := []string{"5x", "10z", "1~", "3\xb5", "7X", "5s", "2\xff", "9{"}
+	return vals[int(c12BadUnitN.Add(1))%len(vals)]
+}
+
 func (e seqEnv) wellFormedFor(methodKind string) bool {
-	if !e.Hdr || e.Dst != "srv" || e.Meta >= 2 {
+	if !e.Hdr || e.Dst != "srv" || e.Meta == 2 || e.Meta == 3 {
 		return false
 	}
 	m := strings.TrimPrefix(e.Method, "/")
@@ -85,6 +97,8 @@ func c12Alphabet() []seqEnv {
 		{Hdr: true, Method: u, Dst: "srv"},                                      // unary without body
 		{Hdr: true, Method: u, Dst: "srv", Body: true, Meta: 2},                 // unary, undecodable metadata
 		{Hdr: true, Method: u, Dst: "srv", Body: true, Meta: 3},                 // unary, undecodable metadata under "K-Bin"
+		{Hdr: true, Method: u, Dst: "srv", Body: true, Meta: 4},                 // unary, timeout header with an unknown unit
+		{Hdr: true, Method: s, Dst: "srv", Meta: 4},                             // stream open, timeout header with an unknown unit
 		{Hdr: true, Method: s, Dst: "srv", Meta: 3},                             // stream open, undecodable metadata under "K-Bin"
 		{Hdr: true, Method: u, Dst: "other", Body: true},                        // wrong destination
 		{Hdr: true, Method: "verif.Echo/Unary", Dst: "srv", Body: true},         // no leading slash
